@@ -122,7 +122,18 @@ func (sr *StreamReader) read(bs []byte) (int, error) {
 }
 
 func (sr *StreamReader) discardSeek(n int64) error {
-	_, err := sr._seeker.Seek(n, io.SeekCurrent)
+	if n <= 0 {
+		_, err := sr._seeker.Seek(n, io.SeekCurrent)
+		return err
+	}
+
+	// Seeking past the end of the input succeeds, so a fixed-width container
+	// that declares more elements than there are bytes would be skipped
+	// "successfully". Stop one byte short and read the last byte.
+	if _, err := sr._seeker.Seek(n-1, io.SeekCurrent); err != nil {
+		return err
+	}
+	_, err := sr.read(sr.buffer[:1])
 	return err
 }
 
